@@ -12,7 +12,8 @@ From Coq Require Import List NArith ZArith Bool.
 From Coq.Strings Require Import Byte.
 Require Import GV.Base.Res GV.Base.Byt GV.Base.Ints GV.Model.Leb GV.Model.Prim
                GV.Spec.LebSpec GV.Spec.FormSpec GV.Model.Attr GV.Spec.Forest GV.Model.AbbrevRd
-               GV.Model.DieRd GV.Proofs.AttrProofs GV.Proofs.AbbrevRdProofs GV.Proofs.DieRdProofs GV.Proofs.NavProofs.
+               GV.Model.DieRd GV.Proofs.AttrProofs GV.Proofs.AbbrevRdProofs GV.Proofs.DieRdProofs GV.Proofs.NavProofs
+               GV.Spec.ForestSel GV.Model.TreeWalk GV.Proofs.TreeWalkProofs.
 Import ListNotations.
 Local Open Scope N_scope.
 
@@ -306,6 +307,42 @@ Example entry_at_offset_ex :
 Proof. split; [vm_compute; tauto|reflexivity]. Qed.
 
 (* ------------------------------------------------------------------ *)
+(* (6b) PARTIAL traversals with the tree iterator. A selection strategy `sel` (Spec/ForestSel.v) is
+        asked at every entry the caller visits: None = children() is not called; Some n = the caller
+        calls EntriesTreeIter::next until n children have been returned (or the list ends) and then
+        goes back to the enclosing list. For EVERY strategy, from EVERY entry (o, t) of the unit, the
+        recursion of Model/TreeWalk.v reports exactly the selected sub-forest of Spec/ForestSel.v —
+        offsets, depths, tags, attribute values: children()/next() at any node return that node's
+        children in order whatever subtrees were skipped (DW_AT_sibling fast path or scanning) or left
+        half-visited before. Same hypotheses as tree_is_forest: any code assignment, DW_AT_sibling on
+        any subset of the entries, null padding. Key lemma: TreeWalkProofs.loop_skip. *)
+
+Theorem tree_any_walk : forall dbg bigend types uoff h codes f pad tbl (sel : strategy) o t,
+  let e := mkEnc (uh_version h) (uh_fmt64 h) (uh_asize h) bigend in
+  let body := enc_forest codes bigend (header_len h) f pad in
+  let hdr := mkUnit e (unit_length_of bigend h (nlen body)) (uh_type h) (uh_abbrev_off h) types uoff body in
+  addr_size_ok e -> header_len h + nlen body < two63 ->
+  Forall (fun t => tbl_get tbl (t_code codes t) = Some (t_abbrev codes t)) (forest_nodes f) ->
+  forest_ok codes e f -> sibs_fit codes (header_len h) f ->
+  In (o, t) (on_list (placed codes) (tree_size codes) (header_len h) f) ->
+  exists ts, entries_tree dbg hdr (Some o) = Ok ts /\
+             walk_tree_plan dbg e tbl sel ts = Ok (sel_tree codes sel 0 o t, None).
+Proof.
+  intros dbg bigend types uoff h codes f pad tbl sel o t e body hdr He Hlen Hc Hok Hfit Hin.
+  exact (TreeWalkProofs.tree_any_walk dbg bigend types uoff h codes f pad tbl He Hlen Hc Hok Hfit sel o t Hin).
+Qed.
+
+(* the unit of forest_ex meets the hypotheses (forest_ex); a strategy that visits two of the three
+   children of the root and does not descend into them; selecting everything is the preorder *)
+Example tree_any_walk_ex :
+  let sel : strategy := fun d => if d_offset d =? 11 then Some 2%nat else None in
+  In (11, ex_root) (on_list (placed ex_codes) (tree_size ex_codes) (header_len ex_header) ex_forest) /\
+  map (fun d => (d_offset d, d_depth d, d_tag d)) (sel_tree ex_codes sel 0 11 ex_root) =
+    [(11, 0%Z, 17); (15, 1%Z, 46); (17, 1%Z, 52)] /\
+  sel_tree ex_codes (fun _ => Some 3%nat) 0 11 ex_root = preorder ex_codes (header_len ex_header) 0 ex_forest.
+Proof. split; [vm_compute; tauto|]. split; vm_compute; reflexivity. Qed.
+
+(* ------------------------------------------------------------------ *)
 (* (7) no step panics or exhausts the model's fuel, on ANY input, in both build modes (feeds C01).
        NavProofs.cursor_ok / tree_ok is the reader invariant "remaining input <= end offset, and
        |depth| + remaining input < 2^63"; every cursor the API creates over a slice shorter than
@@ -359,6 +396,16 @@ Proof.
 Qed.
 
 (* statement pins *)
+Check tree_any_walk : forall dbg bigend types uoff h codes f pad tbl (sel : die -> option nat) o t,
+  let e := mkEnc (uh_version h) (uh_fmt64 h) (uh_asize h) bigend in
+  let body := enc_forest codes bigend (header_len h) f pad in
+  let hdr := mkUnit e (unit_length_of bigend h (nlen body)) (uh_type h) (uh_abbrev_off h) types uoff body in
+  addr_size_ok e -> header_len h + nlen body < two63 ->
+  Forall (fun t => tbl_get tbl (t_code codes t) = Some (t_abbrev codes t)) (forest_nodes f) ->
+  forest_ok codes e f -> sibs_fit codes (header_len h) f ->
+  In (o, t) (on_list (placed codes) (tree_size codes) (header_len h) f) ->
+  exists ts, entries_tree dbg hdr (Some o) = Ok ts /\
+             walk_tree_plan dbg e tbl sel ts = Ok (sel_tree codes sel 0 o t, None).
 Check abbrev_dup_rejected : forall dbg ds rest,
   Forall abbrev_ok ds -> ~ NoDup (map ab_code ds) ->
   parse_abbrevs dbg (enc_decls ds ++ rest) = Err EDuplicateAbbreviationCode.
